@@ -375,7 +375,45 @@ func c04Gen() (c04Case, []byte, func(in *wio.DataInputX)) {
 	if simrt.Chance(1, 60) {
 		return c04Bulk()
 	}
-	switch simrt.Choose(12) {
+	switch simrt.Choose(13) {
+	case 12:
+		// a log-sink container whose payload is (usually) gzip-compressed and unpacked by a
+		// second pass (LogSinkZipPack.GetRecords): the compressed stream carries length fields
+		// of its own (the gzip trailer)
+		var recs []byte
+		var want []byte
+		n := 1 + simrt.Choose(4)
+		z := pack.NewLogSinkZipPack()
+		z.SetPCODE(int64(simrt.Choose(1 << 20)))
+		z.SetOID(int32(simrt.Choose(1 << 20)))
+		for i := 0; i < n; i++ {
+			lp := pack.NewLogSinkPack()
+			lp.Time = 1700000000000 + int64(i)
+			lp.Category = "c"
+			lp.Line = int64(i)
+			lp.Content = c04Text(simrt.Choose(200))
+			lp.Tags.PutString("k", strconv.Itoa(i))
+			recs = append(recs, pack.ToBytesPack(lp)...)
+			lp.SetPCODE(z.Pcode)
+			lp.SetOID(z.Oid)
+			lp.SetOKIND(z.Okind)
+			lp.SetONODE(z.Onode)
+			want = append(want, pack.ToBytesPack(lp)...)
+		}
+		z.SetRecords(recs, []int{0, 100, 1 << 30}[simrt.Choose(3)])
+		z.RecordCount = n
+		rt04.want = want
+		return c04Case{Kind: "logsinkzip", Desc: fmt.Sprintf("%d records status %d", n, z.Status)}, pack.ToBytesPack(z), func(in *wio.DataInputX) {
+			if zp, ok := pack.ReadPack(in).(*pack.LogSinkZipPack); ok {
+				got := zp.GetRecords()
+				if rt04.on {
+					rt04.got = []byte{}
+					for _, p := range got {
+						rt04.got = append(rt04.got, pack.ToBytesPack(p)...)
+					}
+				}
+			}
+		}
 	case 11:
 		// a container whose inner packs are decoded by a second pass (ZipPack.GetRecords):
 		// bytes FOLLOW each inner pack, so an inner count can be raised without running dry
@@ -888,6 +926,14 @@ func c04Body(rc *RunCtx) {
 				copy(mut, enc)
 				binary.BigEndian.PutUint32(mut[i:], v)
 				check(fmt.Sprintf("int32=%#x", v), i, mut)
+			}
+		}
+		if i+4 <= n {
+			// little-endian length fields (the gzip trailer inside compressed payloads)
+			for _, v := range []uint32{1 << 26, 1 << 28, 0x7fffffff} {
+				copy(mut, enc)
+				binary.LittleEndian.PutUint32(mut[i:], v)
+				check(fmt.Sprintf("int32le=%#x", v), i, mut)
 			}
 		}
 		if i+9 <= n {
